@@ -1542,7 +1542,7 @@ func main() {
 	}
 	defer out.Flush()
 	sc := bufio.NewScanner(in)
-	sc.Buffer(make([]byte, 1<<20), 1<<26)
+	sc.Buffer(make([]byte, 1<<20), 1<<28)
 	for sc.Scan() {
 		line := sc.Text()
 		if line == "" {
@@ -1550,5 +1550,11 @@ func main() {
 		}
 		fmt.Fprintln(out, doLine(line))
 		out.Flush() // a crash must not lose the lines already produced
+	}
+	if err := sc.Err(); err != nil {
+		// a case line longer than the buffer: a fault of the harness, reported as such (not silently as missing observations)
+		out.Flush()
+		fmt.Fprintln(os.Stderr, "driver: cannot read the case file:", err)
+		os.Exit(4)
 	}
 }
